@@ -120,3 +120,74 @@ def paired_on_all_paths(g, a_nodes, b_nodes):
         if EXIT in after and a in before_free:
             return a
     return None
+
+
+ADMISSION_CALLS = ('add', 'append', 'insert', 'replace_child', '_can_add_child', 'set')
+
+
+def exclusive_parents(chk, c, rule):
+    """An element is attached either really (`_parent`) or for traversal (`_traversal_parent`), never both: remove(),
+    replace_child() and append() decide between the real list and the traversal list by testing
+    `child.traversal_parent == self.element`.  Rule: wherever a possibly non-None value is stored into `_parent`, every
+    normal path clears traversal_parent before the element is handed to an admission call or the function returns,
+    except along the branch on which the stored value is None."""
+    import ast
+    from ..cfg import cfg_of, EXIT
+    from ..src import own_nodes, norm
+    ix = c.index
+    n_sites = 0
+    for fq, fi in sorted(ix.functions.items()):
+        if not fq.startswith('core.'):
+            continue
+        stores = [n for n in own_nodes(fi.node) if isinstance(n, ast.Assign) and
+                  any(isinstance(t, ast.Attribute) and t.attr == '_parent' and norm(t.value) == 'self' for t in n.targets)]
+        for st in stores:
+            if isinstance(st.value, ast.Constant) and st.value.value is None:
+                continue
+            n_sites += 1
+            v = norm(st.value)
+            g = cfg_of(fi)
+            a = g.node_for(st)
+            clears = set()
+            sinks = {EXIT}
+            for n in own_nodes(fi.node):
+                if isinstance(n, ast.Assign) and isinstance(n.value, ast.Constant) and n.value.value is None and \
+                        any(isinstance(t, ast.Attribute) and t.attr in ('traversal_parent', '_traversal_parent') and
+                            norm(t.value) == 'self' for t in n.targets):
+                    clears.add(g.node_for(n))
+                if isinstance(n, ast.Call) and isinstance(n.func, ast.Attribute) and n.func.attr in ADMISSION_CALLS:
+                    sinks.add(g.node_for(n))
+            sinks -= clears
+
+            def labels_ok(src, dst, lab, g=g, v=v):
+                if lab == 'exc':
+                    return False
+                nd = g.nodes[src]
+                if nd.kind == 'test':
+                    t = norm(nd.ast)
+                    if t in ('%s is not None' % v, v) and lab == 'false':
+                        return False
+                    if t in ('%s is None' % v, 'not %s' % v) and lab == 'true':
+                        return False
+                return True
+            reach = g.reach(a, avoid=clears, labels_ok=labels_ok)
+            hit = sorted(x for x in reach if x in sinks)
+            construct = '%s: `%s` clears traversal_parent' % (fq, norm(st)[:40])
+            if hit:
+                nd = g.nodes[hit[0]] if hit[0] != EXIT else None
+                chk.fail(rule, construct,
+                         'after the real parent is stored, %s is reached with traversal_parent still set: remove() / '
+                         'replace_child() will treat the real child as a traversal placeholder' %
+                         ('the end of the function' if nd is None else '`%s`' % nd.label[:50]),
+                         '%s:%d' % (fi.module.relpath, st.lineno), key='%s|%s|%s' % (rule, fq, 'exit' if nd is None else nd.label[:40]))
+            else:
+                chk.ok(rule, construct, '%d clearing statement(s)' % len(clears), '%s:%d' % (fi.module.relpath, st.lineno),
+                       key='%s|%s' % (rule, fq))
+    chk.floor('stores of a real parent', n_sites, 1)
+    # the readers that depend on the exclusivity
+    n_readers = 0
+    for fq in ('core.ElementList.remove', 'core.ElementList.replace_child', 'core.ElementList.append'):
+        fi = ix.func(fq)
+        if any(isinstance(n, ast.Compare) and 'traversal_parent' in norm(n) for n in own_nodes(fi.node)):
+            n_readers += 1
+    chk.count('functions that choose the traversal list by testing child.traversal_parent', n_readers)
